@@ -1014,3 +1014,27 @@ package geom
 //@     invariant fresh(b.min) || (base(b.min) == old(base(b.min)) && off(b.min) == old(off(b.min)) && cap(b.min) == old(cap(b.min)))
 //@     invariant fresh(b.max) || (base(b.max) == old(base(b.max)) && off(b.max) == old(off(b.max)) && cap(b.max) == old(cap(b.max)))
 //@     invariant forall i int :: 0 <= i && i < idx ==> b.min[i] == args[i] && b.max[i] == args[i + stride]
+
+// C02: the i-th polygon of a MultiPolygon is the slice of the ordinates from the end of the last non-empty polygon
+// before it, with its ring ends re-based to that start (a ringless member is an empty polygon)
+//@ func MultiPolygon.Polygon
+//@   lemmas rowUpTo
+//@   requires wf3(g) && g.stride >= 2 && 0 <= i && i < len(g.endss)
+//@   ensures fresh(res) && wf2(res) && res.layout == g.layout && len(res.ends) == len(g.endss[i])
+//@   ensures forall j int :: 0 <= j && j < len(g.endss[i]) ==> res.ends[j] == g.endss[i][j] - old(lastEnd3(heapfor("int"), cells(g.endss), off(g.endss), i))
+//@   ensures len(g.endss[i]) == 0 ==> len(res.flatCoords) == 0
+//@   ensures len(g.endss[i]) > 0 ==> len(res.flatCoords) == g.endss[i][len(g.endss[i])-1] - old(lastEnd3(heapfor("int"), cells(g.endss), off(g.endss), i))
+//@   ensures forall k int :: 0 <= k && k < len(res.flatCoords) ==> res.flatCoords[k] == g.flatCoords[old(lastEnd3(heapfor("int"), cells(g.endss), off(g.endss), i)) + k]
+//@   modifies nothing
+//@   at stmt8: assert offset == lastEnd3(heapfor("int"), cells(g.endss), off(g.endss), i)
+//@   at stmt5: assert offset == lastEnd3(heapfor("int"), cells(g.endss), off(g.endss), i) && 0 <= offset && offset <= g.endss[i][0]
+//@   at stmt8: assert whole(g.endss[i][0] - offset, g.stride) && offset <= g.endss[i][0]
+//@   at stmt5: assert whole(g.endss[i][0] - offset, g.stride)
+//@   at entry: assert forall j int :: 0 <= j && j < len(g.endss[i]) ==> g.endss[i][j] <= g.endss[i][len(g.endss[i])-1]
+//@   at stmt12: assert forall j int :: 0 <= j && j < len(g.endss[i]) ==> ends[j] == g.endss[i][j] - offset
+//@   loop 1:
+//@     invariant 0 - 1 <= lastNonEmptyIdx && lastNonEmptyIdx <= i - 1 && offset == 0 && emptyBetween(g.endss, lastNonEmptyIdx, i)
+//@     invariant lastEnd3(heapfor("int"), cells(g.endss), off(g.endss), i) == lastEnd3(heapfor("int"), cells(g.endss), off(g.endss), lastNonEmptyIdx + 1)
+//@   loop 2:
+//@     invariant len(ends) == len(g.endss[i]) && fresh(ends) && offset > 0
+//@     invariant forall j int :: 0 <= j && j < idx ==> ends[j] == g.endss[i][j] - offset
